@@ -246,6 +246,29 @@ func c13ids(n int) {
 	}()
 	o := recvOne(sc, conn, 20*time.Second)
 	ids, chunks, lenSum, capSum := v.RetainedChunkBytes()
+	// a single request id: the per-id cap
+	peer2, conn2 := pair(defaultAck(rbuf, mc, ms))
+	defer peer2.Close()
+	defer conn2.Close()
+	sc2, _ := uasc.VerifNewChannel(conn2, noneCfg(), true, make(chan error, 16))
+	v2 := uasc.VerifChannel{S: sc2}
+	v2.AddInstance(noneAlgo(), chanID, tokID, 0, time.Now(), time.Hour)
+	maxHeld, tooMany := 0, 0
+	for i := 0; i < 3*mc+1; i++ {
+		peer2.Write(symChunk("MSG", 'C', chanID, tokID, uint32(i+1), 1, []byte{0}))
+		peer2.Write(symChunk("MSG", 'F', chanID, tokID, uint32(i+1), 2, svcBody(1, nil)))
+		for k := 0; k < 2; k++ {
+			if r := recvOne(sc2, conn2, 5*time.Second); r.K == "toomany" {
+				tooMany++
+			} else if r.K == "deliver" {
+				break
+			}
+		}
+		if _, chunks, _, _ := v2.RetainedChunkBytes(); chunks > maxHeld {
+			maxHeld = chunks
+		}
+	}
+	enc.Encode(map[string]any{"name": "perid", "mc": mc, "sent": 3*mc + 1, "max_held": maxHeld, "too_many": tooMany})
 	enc.Encode(map[string]any{"name": "ids", "sent": n, "rbuf": rbuf, "mc": mc, "ms": ms, "end": o.K, "ids": ids, "chunks": chunks, "len_sum": lenSum, "cap_sum": capSum})
 }
 
